@@ -370,6 +370,57 @@ def run(ctx):
                 if gated else None)
         hashes.add(thrlib.h(["d11", gated]))
 
+    # ---- several waiters on cond_empty; cache flush by the reload thread ---------------------
+    def waiters(b, how, tag=""):
+        return thrlib.run_harness(exe, ["waiters", "--backend", b, "--n", "3" if how == "cancel" else "2", "--how", how],
+                                  os.path.join(ctx.out, "waiters_%s_%s%s" % (b, how, tag)), timeout=60, tsan=True)
+
+    def lost(res):
+        return [j for j in res["results"] if j.get("result") == "waiters" and any(rc != 0 for rc in j["rc"])]
+
+    wjobs = [(b, "timeout") for b in BACKENDS] + [(BACKENDS[ctx.seed % 3], "cancel")]
+    wres = thrlib.pmap(lambda j: waiters(*j), wjobs, workers=4)
+    for (b, how), res in zip(wjobs, wres):
+        if hang_check(ctx, res, "waiters") and hang_check(ctx, waiters(b, how, "_again"), "waiters"):
+            ctx.violation("c11.hang.waiters", "waiters scenario %s/%s hung twice" % (b, how), replay_content=json.dumps({"cmd": " ".join(res["args"])}))
+            continue
+        crash_check(ctx, res, lambda b=b, how=how: waiters(b, how, "_crash"), "c11.crash.waiters")
+        if lost(res) and lost(waiters(b, how, "_again")):
+            j = lost(res)[0]
+            ctx.violation("c11.wait_empty.lost_wakeup.several_waiters",
+                          "%d threads slept in ares_queue_wait_empty(4000) while one request was pending; the queue was empty at "
+                          "+%d ms but the waiters returned %s after %s ms (0 = ARES_SUCCESS, 12 = ARES_ETIMEOUT)" %
+                          (j["n"], j["drained_at_ms"], j["rc"], j["elapsed_ms"]),
+                          replay_content=json.dumps({"cmd": " ".join(res["args"]), "result": j}))
+        V.tsan(res, lambda b=b, how=how: waiters(b, how, "_tsan"), lambda label: "")
+        n1, v1 = thrlib.validate_traces(ctx, [res["trace"]], "waiters_%s_%s" % (b, how))
+        all_runs += n1
+        V.trace(v1, os.path.join(ctx.out, "waiters_%s_%s.all.ndjson" % (b, how)), lambda label: "",
+                lambda rule, label, b=b, how=how: any(x[0] == rule for x in thrlib.validate_traces(
+                    ctx, [waiters(b, how, "_confirm")["trace"]], "waiters_confirm")[1]))
+        hashes.add(thrlib.h(["waiters", b, how]))
+    ctx.sample({"waiters": [j for j in wres[0]["results"] if j.get("result") == "waiters"]})
+
+    def qcflush(b, tag=""):
+        return thrlib.run_harness(exe, ["qcflush", "--backend", b], os.path.join(ctx.out, "qcflush_%s%s" % (b, tag)),
+                                  timeout=60, tsan=True)
+    for b in (BACKENDS[:1] if ctx.quick else BACKENDS):
+        res = qcflush(b)
+        if hang_check(ctx, res, "qcflush") and hang_check(ctx, qcflush(b, "_again"), "qcflush"):
+            ctx.violation("c11.hang.qcflush", "cache-flush scenario hung twice", replay_content=json.dumps({"cmd": " ".join(res["args"])}))
+            continue
+        crash_check(ctx, res, lambda b=b: qcflush(b, "_crash"), "c11.crash.qcflush")
+        seen_flush = [j for j in res["results"] if j.get("result") == "qcflush" and j["flush_seen"] and j["warm_ok"]]
+        if not seen_flush:
+            ctx.notes.setdefault("qcflush_not_established", []).append(b)
+        V.tsan(res, lambda b=b: qcflush(b, "_tsan"), lambda label: "")
+        n1, v1 = thrlib.validate_traces(ctx, [res["trace"]], "qcflush_%s" % b)
+        all_runs += n1
+        V.trace(v1, os.path.join(ctx.out, "qcflush_%s.all.ndjson" % b), lambda label: "")
+        hashes.add(thrlib.h(["qcflush", b]))
+    if ctx.notes.get("qcflush_not_established") and len(ctx.notes["qcflush_not_established"]) == (1 if ctx.quick else 3):
+        raise vlib.MachineryError("the cache-flush scenario could not be established (no cached answer freed by the reload thread)")
+
     # ---- self-test: a corrupted accepted trace must be rejected ------------------------------
     corrupt_selftest(ctx, results[0]["trace"])
 
